@@ -89,6 +89,8 @@ def registration_histories(ctx: RunCtx) -> BoundedResult:
 
 
 def build(ctx: RunCtx) -> Prop:
+    from .c06_leaf import both_backends_key_lookup
+    from .c15 import call_spellings
     from .c06_leaf import mem_index_small_scope     # the assumed contract of get_existing_invocations for Mem, as a bounded stand-in (lookups must not change the index)
     T, reg, G = setup(ctx)
     verify = [G["route_call"], G["_route_new_call_invocation"], G["register_new_invocations"]]
@@ -97,7 +99,7 @@ def build(ctx: RunCtx) -> Prop:
                        "changes; KEYS + raise option + different call identity => rejected with nothing changed",
         level="proof", technique="contract-based deductive verification of the real route_call / registration glue (AST->z3 VCs over abstract component contracts) "
                                  "+ bounded submission histories on both backends",
-        registry=reg, verify=verify, bounded=[registration_histories, mem_index_small_scope],
+        registry=reg, verify=verify, bounded=[registration_histories, mem_index_small_scope, both_backends_key_lookup, call_spellings],
         assumptions=GLUE_ASSUMPTIONS + ["get_existing_invocations returns exactly the same-task, REGISTERED, key-matching ids (proved for Mem in C06 leaf contracts; SQLite bounded)"],
         trusted_base=GLUE_TRUSTED,
         not_decided="two concurrent submissions of the same key (check-then-register is not atomic; the statement is about sequential submissions).",
